@@ -624,6 +624,17 @@ def check_C12(ctx, rep):
             rep.ob('C12.R3', mv, 'Ok-only-after-all-states', okx, '')
         # the result is propagated
         okq = any(callee_decl(f2).endswith('Try::branch') and contains(strip_sites(a2[0]), lambda y: is_call(y, 'State::validate')) for (b2, f2, a2, t2) in calls(ma))
+        if not okq:
+            # no `?`: the error is returned as a value (`try_for_each(..)` as the tail expression).  Every return reached after
+            # State::validate was found Err must be an Err, and such a path exists
+            n_err = 0
+            okq = True
+            for (rb, rk, rv) in ret_defs(ma):
+                for S in mp.at(rb, rk):
+                    if any(f2[0] == 'variant' and f2[2] in ('Err', 'Break') and contains(f2[1], lambda y: is_call(y, 'State::validate')) for f2 in S):
+                        n_err += 1
+                        okq = okq and not is_ok_ret(rv)
+            okq = okq and n_err >= 1
         rep.ob('C12.R3', mv, 'state-error-propagated', okq, 'State::validate(..)? ')
     # R4
     for (rb, rk, rv) in oks:
